@@ -43,7 +43,11 @@ FRESH = U('pyvc.fresh', 'unit', 'FRESH', needs_k3=True)
 COMMON_FRAMES = [U('pyvc.frames', 'render_write_frame', 'render.write_frame'),
                  U('pyvc.frames', 'instance_state', 'instance_state'),
                  U('pyvc.ordered', 'unit', 'compile_path.no_set_iteration'),
-                 U('pyvc.frames', 'decorator_audit', 'decorator_audit')]
+                 U('pyvc.frames', 'decorator_audit', 'decorator_audit'),
+                 # a compiled module served from the cache for the wrong source or configuration breaks
+                 # every property at once
+                 U('pyvc.frames', 'digest_reads_frame', 'digest.reads_frame'),
+                 U('pyvc.frames', 'digest_injective', 'digest.distinguishes_options')]
 S_MORE = [K("k3::S-Switch"), K("k3::S-Case-Condition")]
 S_COMMENT = [K("k3::S-Comment-noninterp"), K("k3::S-Comment-drop"), K("k3::S-Comment-interp")]
 TAL_BASIC = [K("k3::S-Define"), K("k3::S-Define-clauses"), K("k3::S-Condition"), K("k3::S-Content"),
@@ -148,6 +152,7 @@ PROPS = {
                                             K("k3::S-UseExternal"), K("k3::S-MacroUseInternal"),
                                             K("k3::S-MacroUseInternal-after-expr"),
                                             K("template.py::BaseTemplate.render"), K("tal.py::RepeatDict.__call__"),
+                                            K("utils.py::lookup_attr"),
                                             U('pyvc.frames', 'render_write_frame', 'render.write_frame')],
         ["create_formatted_exception itself (dynamic class creation; outside the subset)",
          "ExceptionFormatter record order (only: formatting stores nothing on the formatter)"]),
@@ -364,7 +369,11 @@ PROPS = {
         "units": TOKEN + [K("k3::S-Strict-rejects"), K("k3::S-Deferred-twice"), K("parser.py::match_tag"),
                           U('pyvc.frames', 'cook_error_frame', '_cook.error_frame'),
                           U('pyvc.regexlang', 'statement_unit', 'tal.statement_patterns'),
-                          U('pyvc.frames', 'decorator_audit', 'decorator_audit')],
+                          U('pyvc.frames', 'decorator_audit', 'decorator_audit'),
+                 # a compiled module served from the cache for the wrong source or configuration breaks
+                 # every property at once
+                 U('pyvc.frames', 'digest_reads_frame', 'digest.reads_frame'),
+                 U('pyvc.frames', 'digest_injective', 'digest.distinguishes_options')],
         "not_decided": ["'A template without such an error is never rejected' (needs a notion of "
                         "validity independent of the implementation)",
                         "str(exc) formatting (compute_source_marker uses float arithmetic)"],
